@@ -19,7 +19,12 @@ META = {
             "fsObjects.Create/commit, isValidKey's syntax and mem's copy-in/copy-out are regenerated from /repo on "
             "every run and the theorems are stated over those generated objects; the models are tied to the code by "
             "differential runs (fault enumeration, forced and free interleavings, every corruption/truncation/"
-            "extension) evaluated inside Coq.",
+            "extension) evaluated inside Coq.  Round 3: what a generation of calls leaves is a well-formed directory for "
+            "a store object opened later (restart), strings that are not keys are never found and a key is one plain file "
+            "name, the mapped store over ANY user Store hands on a result only when the Store reported no error (all three "
+            "result shapes); the harness also reopens stores, plants files that path-like keys would reach, injects "
+            "staging-directory and write failures, drives Hash/HashStr/HashReader/HashFile and the JSON helpers over "
+            "misbehaving user Objects, and check readers over sources that continue after errors.",
     "note": "Trusted: Coq kernel + vm_compute; translator gen/obj.go; harness; SHA-256 is a function parameter "
             "(table instance computed by Go); rename(2) atomicity, unique temp names, success of the deferred "
             "os.Remove, sync.RWMutex and the OS file system are modelled, not verified; no crash-durability claim "
@@ -885,7 +890,8 @@ def run(ck):
         checker_cmd="bin/check C18 (gen -> make -C coq theories/Props/C18.vo -> Print Assumptions audit -> "
                     "harness c18 vs vm_compute of Obj/ObjCorr.v)",
         trusted=["Coq 8.16.1 kernel + vm_compute",
-                 "translator gen/obj.go (statement skeleton of Create/commit, key syntax, copy flags, function texts)",
+                 "translator gen/obj.go (statement skeleton of Create/commit, key syntax, copy flags, shape of "
+                 "createTemp, function texts)",
                  "harness/cmd/c18 + checks/c18.py comparison and oracle",
                  "SHA-256 as a function: table computed by Go's crypto/sha256 (streaming = one-shot is the stdlib's)",
                  "modelled not verified: rename(2) atomicity, unique temp names, deferred os.Remove succeeds, "
